@@ -66,6 +66,14 @@ def gen_cases(rng, stats, count):
         # resume everything, then fair rounds
         ops = c["ops"]
         if rng.random() < 0.35:
+            # a dedicated node that is also cordoned / not ready: two taints, the untolerated one first or last
+            std = {"key": rng.choice(["node.kubernetes.io/unschedulable", "node.kubernetes.io/not-ready"]), "effect": "NoSchedule"}
+            ded = {"key": "dedicated", "value": "gpu", "effect": rng.choice(["NoSchedule", "NoExecute"])}
+            nodes = [o for o in c["objects"] if o["kind"] == "Node"]
+            for o in rng.sample(nodes, rng.choice([1, 1, 2]) if len(nodes) > 2 else 1):
+                o.setdefault("spec", {})["taints"] = rng.choice([[ded, std], [std, ded], [ded, std], [std, std]])
+            wprop.bump(stats, "nodes with two taints", "yes")
+        if rng.random() < 0.35:
             # a template change made WHILE the rollout is frozen or paused: the replica set is born under the annotation
             key = rng.choice([P.A_FROZEN, P.A_RU_PAUSED])
             ops += [histgen.edit("ExtendedDaemonSet", NS, EDS, "annotate:%s=true" % key),
